@@ -200,7 +200,7 @@ fn main() {
     std::fs::write(format!("{}/.cargo/config.toml", dir), "[net]\noffline = true\n").unwrap();
     std::fs::write(
         format!("{}/Cargo.toml", dir),
-        "[package]\nname = \"c20gen\"\nversion = \"0.1.0\"\nedition = \"2021\"\npublish = false\n\n[workspace]\n\n[dependencies]\nprometheus = { path = \"/repo\", features = [\"verif\"] }\n\n[profile.release]\nopt-level = 1\ndebug-assertions = true\n",
+        "[package]\nname = \"c20gen\"\nversion = \"0.1.0\"\nedition = \"2021\"\npublish = false\n\n[workspace]\n\n[dependencies]\nprometheus = { path = \"/repo\", features = [\"verif\"] }\n\n[profile.release]\nopt-level = 0\ndebug = false\ndebug-assertions = true\nincremental = false\n",
     )
     .unwrap();
     let _ = std::fs::copy("/repo/Cargo.lock", format!("{}/Cargo.lock", dir));
